@@ -110,7 +110,7 @@ func init() {
 		Trusted:     []string{"go/types, go/cfg (x/tools v0.50.0)", "crypto/rand", "Storage implementation"},
 		Level:       "Sound static check (all paths, both routers) of the state predicate with duals, the domination of token sinks by it with the caller's client id, and the value bindings of the device authorization response.",
 		Note:        "Trusted: go/types+go/cfg, crypto/rand, Storage contract. Temporal behaviour over approve/deny/expire histories is the storage's.",
-		Technique:   "static analysis: must-facts dataflow over go/cfg (predicate duals, guard-before-sink), value-binding patterns, import identity",
+		Technique:   "static analysis: must-facts dataflow over go/cfg (predicate duals, guard-before-sink), value-binding patterns, import identity, constant / guard reasoning for the poll timeout",
 		Rules:       []string{"E1"},
 		Run: func(c *Ctx) {
 			RunE1(c, "C16", append(append([]Ob{}, obs...), sharedObs["C16"]...))
